@@ -4,6 +4,8 @@ import Proofs.C10Simple
 import Proofs.C10Nts
 import Proofs.C10NtsNodup
 import Proofs.C10NtsSpec
+import Proofs.C10SpecDedup
+import Proofs.C10NtsLookup
 /-!
 # C10 — replica sets for a token equal Cassandra's placement  (property theorems)
 
@@ -11,9 +13,15 @@ Model: `Model/Placement.lean` (namespace `Placement`, mirrors token.go / topolog
 specification: `Placement.Spec` (Cassandra's firstTokenIndex / SimpleStrategy / NetworkTopologyStrategy 3.0).
 All theorems quantify over every ring / replication setting / token; the only standing hypothesis on rings is
 `Sorted` (strictly ascending tokens: what `sort.Sort` produces from pairwise distinct tokens).
+
+`networkTopology.replicaMap` is the code AFTER the repairs of KF-C10-1 (seen-host check), KF-C10-2 (sanity check counts
+the ring's datacenters) and KF-C10-3 (`dcRacks` from token owners): the former `_partial` theorems
+(`OneTokenPerNode`, "every ring DC replicated", "hosts = the ring's nodes") are now stated and proved for ALL rings —
+any number of tokens per node, datacenters, racks, replication factors incl. 0 / larger than the DC / DCs unknown
+to the ring.  The old failing inputs are kept as regression `example`s at the end.
 -/
 namespace C10
-open Placement C10Lookup C10Simple C10Nts C10NtsNodup C10NtsSpec
+open Placement C10Lookup C10Simple C10Nts C10NtsNodup C10NtsSpec C10SpecDedup C10NtsLookup
 
 /-! ## ring lookup -/
 
@@ -117,173 +125,154 @@ theorem C10_simple_primary (ring : List Entry) (rf : Nat) (t : Int) (hs : Sorted
 example : (replicasFor (simpleReplicaMap 2 [(0, ⟨1, 1, 1⟩), (5, ⟨1, 1, 1⟩), (10, ⟨2, 1, 1⟩)]) 3).map (·.2)
     = some [⟨1, 1, 1⟩, ⟨2, 1, 1⟩] := by decide
 
-/-! ## NetworkTopologyStrategy — what holds for EVERY ring and EVERY rf map (vnodes, unknown DCs, rf 0, rf > DC size) -/
+/-! ## NetworkTopologyStrategy — for EVERY ring and EVERY rf map (vnodes, unknown DCs, rf 0, rf > DC size) -/
 
-/-- the replica map the loop builds when it does not panic: one entry per ring token whose primary's DC has rf > 0 -/
-def ntsDesc (rfs : List (Nat × Nat)) (hosts : List Host) (tokens : List Entry) : ReplicaRing :=
+/-- what `replicaMap` computes before the token loop: `dcRacks` from the hosts of the ring entries -/
+abbrev cfgOf (rfs : List (Nat × Nat)) (tokens : List Entry) : NtsCfg := mkCfg rfs (tokens.map (·.2))
+
+/-- the replica map the loop builds: one entry per ring token whose primary's DC has rf > 0 -/
+def ntsDesc (rfs : List (Nat × Nat)) (tokens : List Entry) : ReplicaRing :=
   ((indexed tokens).filter (fun p => decide (rfOf rfs p.2.2.dc ≠ 0))).map
-    (fun p => (p.2.1, (ntsReplicasAt (mkCfg rfs hosts) tokens p.1).replicas))
+    (fun p => (p.2.1, (ntsReplicasAt (cfgOf rfs tokens) tokens p.1).replicas))
 
-theorem nts_entry_good (rfs : List (Nat × Nat)) (hosts : List Host) (tokens : List Entry)
-    (hh : ∀ e ∈ tokens, e.2 ∈ hosts) (p : Nat × Entry) (hp : p ∈ indexed tokens) :
-    Good (mkCfg rfs hosts) (ntsReplicasAt (mkCfg rfs hosts) tokens p.1) ∧
-    (rfOf rfs p.2.2.dc ≠ 0 → (ntsReplicasAt (mkCfg rfs hosts) tokens p.1).replicas.head? = some p.2.2) := by
+/-- the inner loop with its seen-host check = the check-free loop over the first occurrences of the nodes clockwise -/
+theorem ntsReplicasAt_eq (c : NtsCfg) (tokens : List Entry) (i : Nat) :
+    ntsReplicasAt c tokens i = walk0 c ntsInit (Spec.firsts (rot (tokens.map (·.2)) i)) := by
+  have hr : (rot tokens i).map (·.2) = rot (tokens.map (·.2)) i := by simp [rot]
+  unfold ntsReplicasAt
+  rw [ntsWalk_eq_walk0, dedup_nil_eq_firsts, hr]
+
+theorem nts_entry_good (rfs : List (Nat × Nat)) (tokens : List Entry) (p : Nat × Entry) (hp : p ∈ indexed tokens) :
+    Good (cfgOf rfs tokens) (ntsReplicasAt (cfgOf rfs tokens) tokens p.1) ∧
+    (rfOf rfs p.2.2.dc ≠ 0 → (ntsReplicasAt (cfgOf rfs tokens) tokens p.1).replicas.head? = some p.2.2) := by
   obtain ⟨hi, he⟩ := mem_indexed tokens p hp
+  rw [ntsReplicasAt_eq]
   refine ⟨good_walk _ _ _ (good_init _), ?_⟩
   intro hrf
-  unfold ntsReplicasAt
-  rw [rot_head tokens p.1 hi, he, List.map_cons]
+  have hi' : p.1 < (tokens.map (·.2)).length := by simpa using hi
   have hm : p.2 ∈ tokens := he ▸ List.getElem_mem hi
-  exact walk_head (mkCfg rfs hosts) rfl p.2.2 _ hrf (rack_known rfs hosts p.2.2 (hh p.2 hm))
+  have hget : (tokens.map (·.2))[p.1] = p.2.2 := by simp [he]
+  rw [rot_head _ p.1 hi', hget]
+  simp only [Spec.firsts]
+  exact walk_head (cfgOf rfs tokens) rfl p.2.2 _ hrf
+    (rack_known rfs _ p.2.2 (List.mem_map.mpr ⟨p.2, hm, rfl⟩))
 
-theorem ntsLoop_desc (rfs : List (Nat × Nat)) (hosts : List Host) (tokens : List Entry)
-    (hh : ∀ e ∈ tokens, e.2 ∈ hosts) :
-    ntsLoop (mkCfg rfs hosts) tokens (indexed tokens) [] = .ok (ntsDesc rfs hosts tokens) := by
-  rw [ntsLoop_ok (mkCfg rfs hosts) tokens (indexed tokens) []]
+theorem ntsLoop_desc (rfs : List (Nat × Nat)) (tokens : List Entry) :
+    ntsLoop (cfgOf rfs tokens) tokens (indexed tokens) [] = .ok (ntsDesc rfs tokens) := by
+  rw [ntsLoop_ok (cfgOf rfs tokens) tokens (indexed tokens) []]
   · simp only [List.nil_append]; rfl
   · intro p hp hrf
-    obtain ⟨g, hd⟩ := nts_entry_good rfs hosts tokens hh p hp
+    obtain ⟨g, hd⟩ := nts_entry_good rfs tokens p hp
     exact ⟨g.nocrash, hd hrf⟩
-
-/-- `C10_no_panic`, the part that holds unconditionally: for every ring built from the hosts (any vnodes, racks, DCs)
-and every rf map, `networkTopology.replicaMap` either returns the described map or panics with
-"token map different size to token ring" — the "replica overflow", "no replicas for token" and
-"first replica is not the primary" panics can never fire. -/
-theorem C10_nts_panic_only_size (rfs : List (Nat × Nat)) (hosts : List Host) (tokens : List Entry)
-    (hh : ∀ e ∈ tokens, e.2 ∈ hosts) :
-    ntsReplicaMap rfs hosts tokens = .ok (ntsDesc rfs hosts tokens) ∨
-    ntsReplicaMap rfs hosts tokens = .error .sizeMismatch := by
-  unfold ntsReplicaMap
-  simp only [ntsLoop_desc rfs hosts tokens hh]
-  by_cases hc : (rfs.filter (fun p => decide (p.2 > 0))).length = (mkCfg rfs hosts).nDcRacks ∧
-      (ntsDesc rfs hosts tokens).length ≠ tokens.length
-  · right; rw [if_pos hc]
-  · left; rw [if_neg hc]
 
 theorem indexed_length {α : Type} (l : List α) : (indexed l).length = l.length := by simp [indexed]
 
-/-- FULL statement (false for the unchanged code, see `C10_cex_no_panic`):
-      ∀ rfs hosts tokens, (∀ e ∈ tokens, e.2 ∈ hosts) → crashOf (ntsReplicaMap rfs hosts tokens) = none.
-`_partial`: no panic when every datacenter of the ring has rf > 0 in the keyspace, or when the number of keyspace
-DCs with rf > 0 differs from the number of ring DCs (the guard of the faulty sanity check is then off). -/
-theorem C10_no_panic_partial (rfs : List (Nat × Nat)) (hosts : List Host) (tokens : List Entry)
-    (hh : ∀ e ∈ tokens, e.2 ∈ hosts)
-    (hyp : (∀ e ∈ tokens, rfOf rfs e.2.dc ≠ 0) ∨
-           (rfs.filter (fun p => decide (p.2 > 0))).length ≠ (mkCfg rfs hosts).nDcRacks) :
-    ntsReplicaMap rfs hosts tokens = .ok (ntsDesc rfs hosts tokens) := by
+/-- `C10_no_panic`: for every ring (any vnodes, racks, DCs) and every rf map — rf 0, larger than the DC, datacenters
+unknown to the ring, ring datacenters unknown to the keyspace — `networkTopology.replicaMap` returns the described
+map; none of its four panics ("replica overflow", "no replicas for token", "first replica is not the primary",
+"token map different size to token ring") can fire. -/
+theorem C10_no_panic (rfs : List (Nat × Nat)) (tokens : List Entry) :
+    ntsReplicaMap rfs tokens = .ok (ntsDesc rfs tokens) := by
   unfold ntsReplicaMap
-  simp only [ntsLoop_desc rfs hosts tokens hh]
-  rcases hyp with hall | hne
-  · have hlen : (ntsDesc rfs hosts tokens).length = tokens.length := by
-      unfold ntsDesc
-      rw [List.length_map, List.filter_eq_self.mpr, indexed_length]
-      intro p hp
-      obtain ⟨hi, he⟩ := mem_indexed tokens p hp
-      have hm : p.2 ∈ tokens := he ▸ List.getElem_mem hi
-      simpa using hall p.2 hm
-    simp [hlen]
-  · simp [hne]
+  simp only [ntsLoop_desc rfs tokens]
+  have hno : ¬ (dcsWithReplicas (cfgOf rfs tokens) = (cfgOf rfs tokens).nDcRacks ∧
+      (ntsDesc rfs tokens).length ≠ tokens.length) := by
+    rintro ⟨hcnt, hlen⟩
+    apply hlen
+    have hall : ∀ d ∈ (cfgOf rfs tokens).dcs, decide (rfOf (cfgOf rfs tokens).rfs d > 0) = true :=
+      List.length_filter_eq_length_iff.mp hcnt
+    unfold ntsDesc
+    rw [List.length_map, List.filter_eq_self.mpr, indexed_length]
+    intro p hp
+    obtain ⟨hi, he⟩ := mem_indexed tokens p hp
+    have hm : p.2 ∈ tokens := he ▸ List.getElem_mem hi
+    have hd : p.2.2.dc ∈ (cfgOf rfs tokens).dcs := by
+      simp only [cfgOf, mkCfg, mem_toSet, List.mem_map]
+      exact ⟨p.2.2, ⟨p.2, hm, rfl⟩, rfl⟩
+    have hpos : rfOf rfs p.2.2.dc > 0 := by simpa [cfgOf, mkCfg] using hall _ hd
+    have hne : rfOf rfs p.2.2.dc ≠ 0 := by omega
+    simpa using hne
+  rw [if_neg hno]
 
-/-- D2, kernel-checked: keyspace {dc1:1, dc2:1} on a ring with dc1 and dc3 panics
-"token map different size to token ring". -/
-theorem C10_cex_no_panic :
-    crashOf (ntsReplicaMap [(1, 1), (2, 1)] [⟨1, 1, 1⟩, ⟨2, 3, 1⟩] [(0, ⟨1, 1, 1⟩), (10, ⟨2, 3, 1⟩)])
-      = some Crash.sizeMismatch := by decide
+theorem C10_no_panic_crash (rfs : List (Nat × Nat)) (tokens : List Entry) :
+    crashOf (ntsReplicaMap rfs tokens) = none := by
+  rw [C10_no_panic]; rfl
 
-/-- every entry of the map: per-DC replica count ≤ rf of that DC (for every ring — also with vnodes),
-and the first replica is the primary of the entry's token. -/
-theorem C10_nts_bound_rf (rfs : List (Nat × Nat)) (hosts : List Host) (tokens : List Entry)
-    (hh : ∀ e ∈ tokens, e.2 ∈ hosts) (e : Int × List Host) (he : e ∈ ntsDesc rfs hosts tokens) (d : Nat) :
+/-- every entry of the map: per-DC replica count ≤ rf of that DC -/
+theorem C10_nts_bound_rf (rfs : List (Nat × Nat)) (tokens : List Entry)
+    (e : Int × List Host) (he : e ∈ ntsDesc rfs tokens) (d : Nat) :
     (e.2.filter (fun x => decide (x.dc = d))).length ≤ rfOf rfs d := by
   unfold ntsDesc at he
   obtain ⟨p, hp, rfl⟩ := List.mem_map.mp he
-  obtain ⟨g, _⟩ := nts_entry_good rfs hosts tokens hh p (List.mem_filter.mp hp).1
+  obtain ⟨g, _⟩ := nts_entry_good rfs tokens p (List.mem_filter.mp hp).1
   rw [g.cnt d]
   exact g.le d
 
-theorem C10_nts_primary_first (rfs : List (Nat × Nat)) (hosts : List Host) (tokens : List Entry)
-    (hh : ∀ e ∈ tokens, e.2 ∈ hosts) (e : Int × List Host) (he : e ∈ ntsDesc rfs hosts tokens) :
+/-- the first replica of every entry is the primary of the entry's token (the owner of its range) -/
+theorem C10_nts_primary_first (rfs : List (Nat × Nat)) (tokens : List Entry)
+    (e : Int × List Host) (he : e ∈ ntsDesc rfs tokens) :
     ∃ th ∈ tokens, th.1 = e.1 ∧ e.2.head? = some th.2 := by
   unfold ntsDesc at he
   obtain ⟨p, hp, rfl⟩ := List.mem_map.mp he
   obtain ⟨hpi, hrf⟩ := List.mem_filter.mp hp
   obtain ⟨hi, hel⟩ := mem_indexed tokens p hpi
-  obtain ⟨_, hd⟩ := nts_entry_good rfs hosts tokens hh p hpi
+  obtain ⟨_, hd⟩ := nts_entry_good rfs tokens p hpi
   exact ⟨p.2, hel ▸ List.getElem_mem hi, rfl, hd (by simpa using hrf)⟩
 
-/-- D1, kernel-checked: ring {A:0,5; B:10; C:20}, one rack, rf {dc1:2}: token 0 ↦ [A, A]. -/
-theorem C10_cex_nts_dup :
-    (ntsReplicaMap [(1, 2)] [⟨1, 1, 1⟩, ⟨2, 1, 1⟩, ⟨3, 1, 1⟩]
-        [(0, ⟨1, 1, 1⟩), (5, ⟨1, 1, 1⟩), (10, ⟨2, 1, 1⟩), (20, ⟨3, 1, 1⟩)]).toOption
-      = some [(0, [⟨1, 1, 1⟩, ⟨1, 1, 1⟩]), (5, [⟨1, 1, 1⟩, ⟨2, 1, 1⟩]), (10, [⟨2, 1, 1⟩, ⟨3, 1, 1⟩]),
-              (20, [⟨3, 1, 1⟩, ⟨1, 1, 1⟩])] := by decide
-
-/-- … whereas Cassandra places token 0 on [A, B] -/
-theorem C10_cex_nts_dup_spec :
-    Spec.nts [(0, ⟨1, 1, 1⟩), (5, ⟨1, 1, 1⟩), (10, ⟨2, 1, 1⟩), (20, ⟨3, 1, 1⟩)] [(1, 2)] 0
-      = [⟨1, 1, 1⟩, ⟨2, 1, 1⟩] := by decide
-
-/-! ## NetworkTopologyStrategy — what holds only without vnodes on the unchanged code -/
-
-/-- hypothesis excluding the recorded defect D1: every node owns exactly one ring token -/
-def OneTokenPerNode (tokens : List Entry) : Prop := (tokens.map (·.2)).Nodup
-
-theorem nts_entry_j (rfs : List (Nat × Nat)) (hosts : List Host) (tokens : List Entry)
-    (h1 : OneTokenPerNode tokens) (i : Nat) :
-    J (rot (tokens.map (·.2)) i) (ntsReplicasAt (mkCfg rfs hosts) tokens i) := by
-  have hr : (rot tokens i).map (·.2) = rot (tokens.map (·.2)) i := by simp [rot]
-  unfold ntsReplicasAt
-  rw [hr]
-  have := j_walk (mkCfg rfs hosts) (rot (tokens.map (·.2)) i) [] ntsInit
-    (by simpa using rot_nodup _ i h1) (good_init _) j_init
+theorem nts_entry_j (rfs : List (Nat × Nat)) (tokens : List Entry) (i : Nat) :
+    J (Spec.firsts (rot (tokens.map (·.2)) i)) (ntsReplicasAt (cfgOf rfs tokens) tokens i) := by
+  rw [ntsReplicasAt_eq]
+  have := j_walk (cfgOf rfs tokens) (Spec.firsts (rot (tokens.map (·.2)) i)) [] ntsInit
+    (by simpa using nodup_firsts _) (good_init _) j_init
   simpa using this
 
-/-- FULL statement (false for the unchanged code, see `C10_cex_nts_dup`):
-      ∀ rfs hosts tokens, ∀ e ∈ ntsDesc rfs hosts tokens, e.2.Nodup.
-`_partial`: with one token per node no replica list contains a node twice. -/
-theorem C10_nts_nodup_partial (rfs : List (Nat × Nat)) (hosts : List Host) (tokens : List Entry)
-    (h1 : OneTokenPerNode tokens) (e : Int × List Host) (he : e ∈ ntsDesc rfs hosts tokens) : e.2.Nodup := by
+/-- `C10_nts_nodup`: for every ring — any number of tokens per node — no replica list contains a node twice. -/
+theorem C10_nts_nodup (rfs : List (Nat × Nat)) (tokens : List Entry)
+    (e : Int × List Host) (he : e ∈ ntsDesc rfs tokens) : e.2.Nodup := by
   unfold ntsDesc at he
   obtain ⟨p, _, rfl⟩ := List.mem_map.mp he
-  exact (nts_entry_j rfs hosts tokens h1 p.1).rnd
+  exact (nts_entry_j rfs tokens p.1).rnd
 
-/-- `_partial` (one token per node): per datacenter a replica list holds at most min(rf, nodes of the DC) nodes.
-(The rf half holds for every ring: `C10_nts_bound_rf`; the node-count half fails with vnodes: [A, A].) -/
-theorem C10_nts_bound_partial (rfs : List (Nat × Nat)) (hosts : List Host) (tokens : List Entry)
-    (hh : ∀ e ∈ tokens, e.2 ∈ hosts) (h1 : OneTokenPerNode tokens)
-    (e : Int × List Host) (he : e ∈ ntsDesc rfs hosts tokens) (d : Nat) :
-    (e.2.filter (fun x => decide (x.dc = d))).length ≤
-      min (rfOf rfs d) (((tokens.map (·.2)).filter (fun x => decide (x.dc = d))).length) := by
-  have hb := C10_nts_bound_rf rfs hosts tokens hh e he d
-  have hnd := C10_nts_nodup_partial rfs hosts tokens h1 e he
+/-- the distinct nodes of datacenter `d` that own tokens of the ring -/
+def nodesOfDC (tokens : List Entry) (d : Nat) : List Host :=
+  (Spec.firsts (tokens.map (·.2))).filter (fun x => decide (x.dc = d))
+
+/-- `C10_nts_bound`: for every ring, per datacenter a replica list holds at most min(rf, distinct nodes of the DC)
+nodes — it never exceeds the available distinct nodes. -/
+theorem C10_nts_bound (rfs : List (Nat × Nat)) (tokens : List Entry)
+    (e : Int × List Host) (he : e ∈ ntsDesc rfs tokens) (d : Nat) :
+    (e.2.filter (fun x => decide (x.dc = d))).length ≤ min (rfOf rfs d) (nodesOfDC tokens d).length := by
+  have hb := C10_nts_bound_rf rfs tokens e he d
+  have hnd := C10_nts_nodup rfs tokens e he
   unfold ntsDesc at he
   obtain ⟨p, _, rfl⟩ := List.mem_map.mp he
-  have j := nts_entry_j rfs hosts tokens h1 p.1
+  have j := nts_entry_j rfs tokens p.1
   have := nodup_subset_length_le
-    ((ntsReplicasAt (mkCfg rfs hosts) tokens p.1).replicas.filter (fun x => decide (x.dc = d)))
-    ((tokens.map (·.2)).filter (fun x => decide (x.dc = d)))
+    ((ntsReplicasAt (cfgOf rfs tokens) tokens p.1).replicas.filter (fun x => decide (x.dc = d)))
+    (nodesOfDC tokens d)
     (List.Sublist.nodup List.filter_sublist hnd)
     (by
       intro x hx
+      unfold nodesOfDC
       rw [List.mem_filter] at hx ⊢
-      exact ⟨(mem_rot _ _ x).mp (j.rp x hx.1), hx.2⟩)
+      refine ⟨?_, hx.2⟩
+      rw [mem_firsts]
+      exact (mem_rot _ _ x).mp ((mem_firsts _ x).mp (j.rp x hx.1)))
   exact Nat.le_min.mpr ⟨hb, this⟩
 
-example : OneTokenPerNode [(0, ⟨1, 1, 1⟩), (10, ⟨2, 1, 2⟩), (20, ⟨3, 2, 1⟩)] := by
-  unfold OneTokenPerNode; decide
+/-- … and in total it never exceeds the distinct nodes of the ring -/
+theorem C10_nts_bound_total (rfs : List (Nat × Nat)) (tokens : List Entry)
+    (e : Int × List Host) (he : e ∈ ntsDesc rfs tokens) : e.2.length ≤ distinctNodes tokens := by
+  have hnd := C10_nts_nodup rfs tokens e he
+  unfold ntsDesc at he
+  obtain ⟨p, _, rfl⟩ := List.mem_map.mp he
+  have j := nts_entry_j rfs tokens p.1
+  exact nodup_subset_length_le _ _ hnd (by
+    intro x hx
+    rw [mem_firsts]
+    exact (mem_rot _ _ x).mp ((mem_firsts _ x).mp (j.rp x hx)))
 
-/-! ## NetworkTopologyStrategy: model = Cassandra (one token per node) -/
-
-theorem ownerIdx_self (ring : List Entry) (hs : Sorted ring) (i : Nat) (hi : i < ring.length) :
-    Spec.ownerIdx ring (ring[i].1) = i := by
-  unfold Spec.ownerIdx
-  have : ring.findIdx (fun e => decide (ring[i].1 ≤ e.1)) = i := by
-    rw [List.findIdx_eq hi]
-    refine ⟨by simp, ?_⟩
-    intro j hji
-    have := (List.pairwise_iff_getElem.mp hs) j i (by omega) hi hji
-    simp only [decide_eq_false_iff_not]; omega
-  rw [this, if_pos hi]
+/-! ## NetworkTopologyStrategy: the code = Cassandra, for every ring -/
 
 theorem nodup_foldl_setAdd {α : Type} [DecidableEq α] (l : List α) : ∀ (acc : List α), acc.Nodup →
     (l.foldl setAdd acc).Nodup := by
@@ -303,53 +292,138 @@ theorem nodup_foldl_setAdd {α : Type} [DecidableEq α] (l : List α) : ∀ (acc
 theorem nodup_toSet {α : Type} [DecidableEq α] (l : List α) : (toSet l).Nodup :=
   nodup_foldl_setAdd l [] (by simp)
 
-/-- the environment in which the simulation runs: ring without vnodes, hosts = the ring's nodes -/
-theorem env_of (rfs : List (Nat × Nat)) (hosts : List Host) (ring : List Entry)
-    (h1 : OneTokenPerNode ring) (hhosts : ∀ x, x ∈ hosts ↔ x ∈ ring.map (·.2))
-    (hkeys : (rfs.map (·.1)).Nodup) (i : Nat) :
-    Env (mkCfg rfs hosts) (Spec.topoOf ring) ([] ++ rot (ring.map (·.2)) i) := by
-  have hf : Spec.firsts (ring.map (·.2)) = ring.map (·.2) := firsts_of_nodup _ h1
-  refine ⟨?_, ?_, ?_, by simpa using rot_nodup _ i h1, hkeys, rfl⟩
+/-- the environment in which the simulation runs: any ring; the walk is over the first occurrences of its nodes -/
+theorem env_of (rfs : List (Nat × Nat)) (ring : List Entry) (hkeys : (rfs.map (·.1)).Nodup) (i : Nat) :
+    Env (cfgOf rfs ring) (Spec.topoOf ring) ([] ++ Spec.firsts (rot (ring.map (·.2)) i)) := by
+  have hmem : ∀ x, x ∈ Spec.firsts (rot (ring.map (·.2)) i) ↔ x ∈ ring.map (·.2) := by
+    intro x; rw [mem_firsts, mem_rot]
+  refine ⟨?_, ?_, ?_, by simpa using nodup_firsts _, hkeys, rfl⟩
   · intro d
-    simp only [Spec.topoOf, mkCfg, hf]
+    simp only [Spec.topoOf, cfgOf, mkCfg]
     apply List.Perm.length_eq
     rw [List.perm_ext_iff_of_nodup (nodup_firsts _) (nodup_toSet _)]
     intro r
     rw [mem_firsts, mem_toSet]
-    simp only [List.mem_map, List.mem_filter, decide_eq_true_eq]
-    constructor
-    · rintro ⟨x, ⟨hx, hd⟩, rfl⟩; exact ⟨x, ⟨(hhosts x).mpr (by simpa using hx), hd⟩, rfl⟩
-    · rintro ⟨x, ⟨hx, hd⟩, rfl⟩; exact ⟨x, ⟨by simpa using (hhosts x).mp hx, hd⟩, rfl⟩
+    simp only [List.mem_map, List.mem_filter, decide_eq_true_eq, mem_firsts]
   · intro x hx
     simp only [List.nil_append] at hx
-    exact rack_known rfs hosts x ((hhosts x).mpr ((mem_rot _ _ x).mp hx))
+    exact rack_known rfs _ x ((hmem x).mp hx)
   · intro d
-    simp only [Spec.topoOf, hf, List.nil_append]
+    simp only [Spec.topoOf, List.nil_append]
     apply nodup_subset_length_le
-    · exact List.Sublist.nodup List.filter_sublist (rot_nodup _ i h1)
+    · exact List.Sublist.nodup List.filter_sublist (nodup_firsts _)
     · intro x hx
       rw [List.mem_filter] at hx ⊢
-      exact ⟨(mem_rot _ _ x).mp hx.1, hx.2⟩
+      exact ⟨(mem_firsts _ x).mpr ((hmem x).mp hx.1), hx.2⟩
 
-/-- FULL statement (false for the unchanged code because of D1, `C10_cex_nts_dup` / `C10_cex_nts_dup_spec`):
-      every entry of networkTopology.replicaMap's result holds Cassandra's replicas of the entry's token.
-`_partial`: proved for rings with one token per node whose hosts are the ring's nodes (every host owns a token),
-for every rf map (rf 0, rf larger than the DC, DCs unknown to the ring), any number of DCs and racks. -/
-theorem C10_nts_equal_partial (rfs : List (Nat × Nat)) (hosts : List Host) (ring : List Entry)
-    (hs : Sorted ring) (h1 : OneTokenPerNode ring) (hhosts : ∀ x, x ∈ hosts ↔ x ∈ ring.map (·.2))
+/-- `C10_nts_equal`: for every sorted ring — any number of tokens per node, DCs, racks unevenly populated — and every
+rf map (rf 0, rf larger than the DC, DCs unknown to the ring; keys distinct as in a Go map), every entry of
+`networkTopology.replicaMap`'s result holds exactly Cassandra's replicas of the entry's token, in Cassandra's order. -/
+theorem C10_nts_equal (rfs : List (Nat × Nat)) (ring : List Entry) (hs : Sorted ring)
     (hkeys : (rfs.map (·.1)).Nodup)
-    (e : Int × List Host) (he : e ∈ ntsDesc rfs hosts ring) : e.2 = Spec.nts ring rfs e.1 := by
+    (e : Int × List Host) (he : e ∈ ntsDesc rfs ring) : e.2 = Spec.nts ring rfs e.1 := by
   unfold ntsDesc at he
   obtain ⟨p, hp, rfl⟩ := List.mem_map.mp he
   obtain ⟨hi, hel⟩ := mem_indexed ring p (List.mem_filter.mp hp).1
   simp only
-  unfold Spec.nts ntsReplicasAt
+  unfold Spec.nts
   rw [← hel, ← rot_owner_eq_clockwise ring _ hs, ownerIdx_self ring hs p.1 hi]
   have hr : (rot ring p.1).map (·.2) = rot (ring.map (·.2)) p.1 := by simp [rot]
-  rw [hr]
-  exact sim_walk (mkCfg rfs hosts) (Spec.topoOf ring) (rot (ring.map (·.2)) p.1) [] ntsInit Spec.init
-    (env_of rfs hosts ring h1 hhosts hkeys p.1) (good_init _) j_init (sim_init _)
+  rw [hr, spec_walk_firsts, ntsReplicasAt_eq]
+  exact sim_walk (cfgOf rfs ring) (Spec.topoOf ring) (Spec.firsts (rot (ring.map (·.2)) p.1)) [] ntsInit Spec.init
+    (env_of rfs ring hkeys p.1) (good_init _) j_init (sim_init _)
 
 example : Spec.nts [(0, ⟨1, 1, 1⟩), (10, ⟨2, 1, 1⟩), (20, ⟨3, 1, 2⟩)] [(1, 2)] 0 = [⟨1, 1, 1⟩, ⟨3, 1, 2⟩] := by decide
+
+/-! ## the whole replica map and the lookup of an arbitrary token -/
+
+theorem indexed_map_snd {α : Type} (l : List α) : (indexed l).map (·.2) = l := by
+  unfold indexed
+  exact List.map_snd_zip (by simp)
+
+/-- `C10_nts_map`: for every sorted ring and rf map, `networkTopology.replicaMap` returns — without panic — exactly
+the map that has, for every ring token whose primary's datacenter is replicated, Cassandra's replicas of that token. -/
+theorem C10_nts_map (rfs : List (Nat × Nat)) (ring : List Entry) (hs : Sorted ring) (hkeys : (rfs.map (·.1)).Nodup) :
+    ntsReplicaMap rfs ring =
+      .ok ((ring.filter (fun e => repl rfs e.2)).map (fun e => (e.1, Spec.nts ring rfs e.1))) := by
+  rw [C10_no_panic]
+  congr 1
+  have hcongr : ntsDesc rfs ring =
+      ((indexed ring).filter (fun p => repl rfs p.2.2)).map (fun p => (p.2.1, Spec.nts ring rfs p.2.1)) := by
+    unfold ntsDesc
+    apply List.map_congr_left
+    intro p hp
+    have hmem : (p.2.1, (ntsReplicasAt (cfgOf rfs ring) ring p.1).replicas) ∈ ntsDesc rfs ring := by
+      unfold ntsDesc
+      exact List.mem_map.mpr ⟨p, hp, rfl⟩
+    have := C10_nts_equal rfs ring hs hkeys _ hmem
+    simp only at this
+    rw [this]
+  rw [hcongr]
+  have h1 : (fun p : Nat × Entry => (p.2.1, Spec.nts ring rfs p.2.1))
+      = (fun e : Entry => (e.1, Spec.nts ring rfs e.1)) ∘ (·.2) := rfl
+  have h2 : (fun p : Nat × Entry => repl rfs p.2.2) = (fun e : Entry => repl rfs e.2) ∘ (·.2) := rfl
+  rw [h1, h2, ← List.map_map, ← List.filter_map, indexed_map_snd]
+
+/-- `C10_nts_lookup`: for every sorted ring, rf map and lookup token `t` (equal to, between, below the smallest, above
+the largest ring token): the replicas the driver associates with `t` — `replicasFor` on the replica map, no replicas when
+it returns nil — are exactly Cassandra's replicas of `t`. -/
+theorem C10_nts_lookup (rfs : List (Nat × Nat)) (ring : List Entry) (t : Int) (hs : Sorted ring)
+    (hkeys : (rfs.map (·.1)).Nodup) :
+    (match ntsReplicaMap rfs ring with
+     | .ok rr => (match replicasFor rr t with
+        | some e => some e.2
+        | none => some [])
+     | .error _ => none) = some (Spec.nts ring rfs t) := by
+  rw [C10_nts_map rfs ring hs hkeys]
+  simp only
+  by_cases hne : ring.filter (fun e => repl rfs e.2) = []
+  · rw [hne, nts_none_retained ring rfs t hne]
+    rfl
+  · rw [replicasFor_map _ (fun e => Spec.nts ring rfs e.1) t (sorted_filter ring _ hs) hne]
+    simp only
+    rw [← nts_at_retained ring rfs t hs hne]
+
+example : (match ntsReplicaMap [(1, 1)] [(0, ⟨1, 1, 1⟩), (10, ⟨2, 3, 1⟩)] with
+     | .ok rr => (replicasFor rr 5).map (·.2)
+     | .error _ => none) = some [⟨1, 1, 1⟩] := by decide
+
+/-! ## regression: the inputs of the repaired findings -/
+
+/-- KF-C10-1 input {A:0,5; B:10; C:20}, one rack, rf {dc1:2}: token 0 ↦ [A, B], as Cassandra -/
+example :
+    (ntsReplicaMap [(1, 2)] [(0, ⟨1, 1, 1⟩), (5, ⟨1, 1, 1⟩), (10, ⟨2, 1, 1⟩), (20, ⟨3, 1, 1⟩)]).toOption
+      = some [(0, [⟨1, 1, 1⟩, ⟨2, 1, 1⟩]), (5, [⟨1, 1, 1⟩, ⟨2, 1, 1⟩]), (10, [⟨2, 1, 1⟩, ⟨3, 1, 1⟩]),
+              (20, [⟨3, 1, 1⟩, ⟨1, 1, 1⟩])] := by decide
+
+example :
+    [0, 5, 10, 20].map (Spec.nts [(0, ⟨1, 1, 1⟩), (5, ⟨1, 1, 1⟩), (10, ⟨2, 1, 1⟩), (20, ⟨3, 1, 1⟩)] [(1, 2)])
+      = [[⟨1, 1, 1⟩, ⟨2, 1, 1⟩], [⟨1, 1, 1⟩, ⟨2, 1, 1⟩], [⟨2, 1, 1⟩, ⟨3, 1, 1⟩], [⟨3, 1, 1⟩, ⟨1, 1, 1⟩]] := by decide
+
+/-- … and the loop WITHOUT the seen-host check (the code before the repair) on the same walk lists A twice -/
+example :
+    (walk0 (cfgOf [(1, 2)] [(0, ⟨1, 1, 1⟩), (5, ⟨1, 1, 1⟩), (10, ⟨2, 1, 1⟩), (20, ⟨3, 1, 1⟩)]) ntsInit
+        [⟨1, 1, 1⟩, ⟨1, 1, 1⟩, ⟨2, 1, 1⟩, ⟨3, 1, 1⟩]).replicas = [⟨1, 1, 1⟩, ⟨1, 1, 1⟩] := by decide
+
+/-- KF-C10-2 input: keyspace {dc1:1, dc2:1}, ring with dc1 and dc3: no panic, the dc1 token is mapped, the dc3 token
+has no entry -/
+example :
+    (ntsReplicaMap [(1, 1), (2, 1)] [(0, ⟨1, 1, 1⟩), (10, ⟨2, 3, 1⟩)]).toOption = some [(0, [⟨1, 1, 1⟩])] := by decide
+
+/-- … whereas the guard before the repair (number of keyspace DCs with rf > 0 = number of ring DCs) was on -/
+example : ([(1, 1), (2, 1)].filter (fun p : Nat × Nat => decide (p.2 > 0))).length
+    = (cfgOf [(1, 1), (2, 1)] [(0, ⟨1, 1, 1⟩), (10, ⟨2, 3, 1⟩)]).nDcRacks := by decide
+
+/-- KF-C10-3 input: A(r1):0, B(r1):10, C(r2) without tokens, rf {dc1:2}: the token-less host is not part of the
+topology any more, both tokens get two replicas, as in Cassandra -/
+example :
+    (ntsReplicaMap [(1, 2)] [(0, ⟨1, 1, 1⟩), (10, ⟨2, 1, 1⟩)]).toOption
+      = some [(0, [⟨1, 1, 1⟩, ⟨2, 1, 1⟩]), (10, [⟨2, 1, 1⟩, ⟨1, 1, 1⟩])] := by decide
+
+/-- … whereas with rack 2 of the token-less host counted in `dcRacks` (the code before the repair) the skipped host
+is never drained -/
+example :
+    (walk0 (mkCfg [(1, 2)] [⟨1, 1, 1⟩, ⟨2, 1, 1⟩, ⟨3, 1, 2⟩]) ntsInit [⟨1, 1, 1⟩, ⟨2, 1, 1⟩]).replicas
+      = [⟨1, 1, 1⟩] := by decide
 
 end C10
